@@ -628,4 +628,12 @@ N("C06", "volume-fn-third-float", C + "volume.py", "volume", "return 1 / 3 * hei
 
 
 def catalogue(prop: str) -> List[Mutant]:
-    return list(CAT.get(prop, []))
+    out = list(CAT.get(prop, []))
+    if prop == "C12":
+        # C12's first law *is* the confinement theorem over all handlers: its catalogue is the union of the
+        # confinement mutants of C01-C03 (fault: any new finding of C12; neutral: none)
+        for src in ("C01", "C02", "C03"):
+            for m in CAT.get(src, []):
+                if m.kind == "neutral" or (m.rule or "").endswith(".1"):
+                    out.append(Mutant("C12:" + m.name, m.kind, m.file, m.func, m.find, m.replace, None, m.count, m.note))
+    return out
